@@ -81,7 +81,10 @@ RULE = ("run i < table size is the i-th row of the complete table {8 voter behav
         "kept within 1..7; n, weights and the criterion are re-derived from the colony at vote time), real BioAgents "
         "starved by the shared budget, garbled confidences, and a threads family (2-3 tasks x 1-2 run_vote calls on ONE quorum "
         "object under the seeded line-granularity scheduler, voters answer per proposal); voters are also enrolled with "
-        "add_agent(name, weight) over the whole weight grid incl. 0 and with duplicate / empty names; each PERMIT outcome is re-run with every single "
+        "add_agent(name, weight) over the whole weight grid incl. 0 and with duplicate / empty names; "
+        "enable_reliability_tracking on/off (flag drawn per run incl. table rows, attribute toggled between rounds) and "
+        "observer callbacks present/absent; a labelled extra family with inf/NaN weights and confidences (outside the "
+        "statement's grid, judged by S1/S3/S5 only); each PERMIT outcome is re-run with every single "
         "block->permit / weight-up / confidence-up variant (max 12); non-trivial = a ballot with at least two different "
         "vote types or at least one faulted voter (raised, starved, garbled); distinct = distinct plan")
 COMPONENTS = {"real": ["operon_ai.topology.quorum.QuorumSensing", "operon_ai.topology.quorum.EmergencyQuorum",
@@ -104,6 +107,11 @@ ASSUMPTIONS = [
     "the weights of the criterion are the weights the caller gave (constructor default 1, add_agent(name, w), "
     "set_agent_weight on an unambiguous name), multiplied by the reliability the quorum reports; only where a "
     "name-addressed setter hit a duplicated name is the weight read back from get_statistics()",
+    "non-finite weights and confidences (inf, NaN) are outside the statement's grid; they are generated only in the "
+    "labelled 'nonfinite' family, which is judged by S1, S3 and S5 alone (those clauses carry no weight/confidence "
+    "qualifier); the grid families never contain them",
+    "enable_reliability_tracking (constructor flag and public attribute) is part of the input space; it does not change "
+    "any criterion: the reliability that scales a weight is whatever the quorum reports",
     "threads family: S1/S2/S3/S5/S6 are judged per call on that call's own ballot (the voters answer per proposal "
     "text); sound because unchanged quorum.py keeps all tallying state in locals (statistics counters and the vote "
     "history are shared but not judged); no reliability feedback and no colony change while votes overlap; S4 is not "
@@ -119,7 +127,8 @@ EXPECT_PROBES = ("emergency_run", "bayesian_run", "tie_at_threshold", "s2_applie
                  "sampled_large_electorate", "min_voters_zero", "empty_active_ballot", "colony_grew", "colony_shrank",
                  "strategy_changed_before_vote", "weight_changed_before_vote", "vote_after_electorate_change",
                  "duplicate_agent_name", "empty_agent_name", "enrolled_with_zero_weight", "twins_vote_differently",
-                 "threads_run", "overlapping_votes", "preempted_inside_run_vote")
+                 "threads_run", "overlapping_votes", "preempted_inside_run_vote", "reliability_tracking_off",
+                 "reliability_tracking_toggled", "tracking_off_with_uneven_weights", "nonfinite_run", "nonfinite_confidence")
 
 VT = {"permit": VoteType.PERMIT, "block": VoteType.BLOCK, "abstain": VoteType.ABSTAIN, "defer": VoteType.DEFER}
 CLS = {"PERMIT": "permit", "EXECUTE": "permit", "BLOCK": "block", "DEFER": "defer"}
@@ -175,10 +184,12 @@ def gen(rng, tier, i):
     if row is not None:
         n, cfg, beh = row
         confs = _confs(rng, n)
-        cfg.update({"n": n, "family": "table", "weights": _weights(rng, n), "via_set": False})
+        cfg.update({"n": n, "family": "table", "weights": _weights(rng, n), "via_set": False,
+                    "tracking": rng.random() < 0.75, "callbacks": rng.random() < 0.15})
         return {"config": cfg, "ops": [["vote", [[b, c] for b, c in zip(beh, confs)]]]}
 
-    fam = weighted(rng, [(4, "large"), (3, "history"), (4.5, "electorate"), (1.3, "real"), (1, "garbled"), (1.6, "threads")])
+    fam = weighted(rng, [(4, "large"), (3, "history"), (4.5, "electorate"), (1.3, "real"), (1, "garbled"), (1.6, "threads"),
+                         (0.8, "nonfinite")])
     if fam == "threads":
         return _gen_threads(rng, tier)
     if fam == "large":
@@ -201,8 +212,16 @@ def gen(rng, tier, i):
             cfg.update({"strategy": "threshold", "emergency": False, "threshold": rng.choice([None, None, 0.3, 0.5])})
     if not cfg["emergency"] and cfg["strategy"] == "threshold" and rng.random() < 0.1:
         cfg["threshold"] = n + 1          # a count nobody can reach
-    cfg.update({"n": n, "family": fam, "weights": _weights(rng, n), "via_set": rng.random() < 0.3})
+    cfg.update({"n": n, "family": fam, "weights": _weights(rng, n), "via_set": rng.random() < 0.3,
+                "tracking": rng.random() < 0.7, "callbacks": rng.random() < 0.2})
     cur = {"n": n}
+    if fam == "nonfinite":
+        # clearly labelled extra family OUTSIDE the statement's grid: inf / NaN weights and confidences
+        if rng.random() < 0.7:
+            cfg["strategy"] = rng.choice(["weighted", "confidence", "bayesian"])
+            cfg["emergency"] = False
+            cfg["threshold"] = rng.choice([None] + FRACTIONS)
+        cfg["weights"] = [rng.choice(["inf", "inf", "nan", 1, 0, 3]) for _ in range(n)]
 
     def ballot():
         m = cur["n"]
@@ -232,6 +251,12 @@ def gen(rng, tier, i):
             for j in range(m):
                 if rng.random() < 0.4:
                     confs[j] = rng.choice(["high", "n/a"])
+        if fam == "nonfinite":
+            if rng.random() < 0.6:
+                beh = [rng.choice(BEHAVIOURS[2:]) for _ in range(m)]          # no permit vote at all
+                if rng.random() < 0.7:
+                    beh[rng.randrange(m)] = "BLOCK"
+            confs = [rng.choice([0, 0, "nan", "inf", None, 1]) for _ in range(m)]
         return [[b, c] for b, c in zip(beh, confs)]
 
     def electorate_ops(lo, hi):
@@ -240,18 +265,21 @@ def gen(rng, tier, i):
         trend = rng.choice(["grow", "grow", "shrink", "shrink", "mixed"])
         for _ in range(rng.randint(lo, hi)):
             o = weighted(rng, [(4 if trend != "shrink" else 0.7, "add"), (4 if trend != "grow" else 0.7, "remove"),
-                               (1.2, "weight"), (1.0, "strategy")])
+                               (1.2, "weight"), (1.0, "strategy"), (0.5, "tracking")])
+            wgrid = WEIGHTS + (["inf", "nan"] if fam == "nonfinite" else [])
             if o == "add" and cur["n"] < 7:
                 nk = weighted(rng, [(5, None), (3, "dup"), (0.7, "empty")])
                 if nk == "dup":
                     nk = ["dup", rng.randrange(cur["n"])]
-                out.append(["add_agent", rng.choice([1, 1, 0, 0] + WEIGHTS), nk])
+                out.append(["add_agent", rng.choice([1, 1, 0, 0] + wgrid), nk])
                 cur["n"] += 1
             elif o == "remove" and cur["n"] > 1:
                 out.append(["remove_agent", rng.randrange(cur["n"])])
                 cur["n"] -= 1
             elif o == "weight":
-                out.append(["set_weight", rng.randrange(cur["n"]), rng.choice(WEIGHTS)])
+                out.append(["set_weight", rng.randrange(cur["n"]), rng.choice(wgrid)])
+            elif o == "tracking":
+                out.append(["set_tracking", rng.random() < 0.4])
             elif o == "strategy":
                 c2 = rng.choice(_CFG[min(cur["n"], 7)])
                 out.append(["set_strategy", c2["strategy"], c2["threshold"]])
@@ -271,6 +299,12 @@ def gen(rng, tier, i):
                 ops.append(["feedback", weighted(rng, [(3, "block"), (3, "permit"), (2, "abstain")])])
             if rng.random() < 0.25:
                 ops += electorate_ops(1, 2)
+        return {"config": cfg, "ops": ops}
+    if fam == "nonfinite":
+        ops = electorate_ops(0, 2)
+        ops.append(["vote", ballot()])
+        if rng.random() < 0.3:
+            ops.append(["vote", ballot()])
         return {"config": cfg, "ops": ops}
     if fam == "electorate":
         ops = []
@@ -298,7 +332,7 @@ def _gen_threads(rng, tier):
         cfg.update({"strategy": rng.choice(["majority", "supermajority", "unanimous", "threshold"]), "threshold": None,
                     "emergency": False})
     cfg.update({"n": n, "family": "threads", "weights": _weights(rng, n), "via_set": False,
-                "sched": dict(weighted(rng, SCHEDS))})
+                "tracking": rng.random() < 0.7, "callbacks": False, "sched": dict(weighted(rng, SCHEDS))})
 
     def ballot():
         shape = weighted(rng, [(3, "wide_few_permits"), (3, "narrow"), (2, "any"), (1, "all_permit"), (1, "votes")])
@@ -365,6 +399,8 @@ def simplify(plan):
             yield {**plan, "ops": ops}
     if cfg.get("via_set"):
         yield {**plan, "config": dict(cfg, via_set=False)}
+    if cfg.get("callbacks"):
+        yield {**plan, "config": dict(cfg, callbacks=False)}
     for j, w in enumerate(cfg["weights"]):
         if w != 1:
             ws = list(cfg["weights"])
@@ -409,6 +445,11 @@ class FakeVoter:
         if not self.store.consume(cost=COST):
             self.broken = "shared budget miscalculated: a paying voter was starved"
             raise HarnessError(self.broken)
+        if isinstance(self.conf, str) and self.conf in NONFINITE:
+            self.cast = CLS.get(self.beh, "failed")
+            self.k.fault("collab_adversarial_value")
+            self.k.probe("nonfinite_confidence")
+            return ActionProtein(self.beh, {"confidence": float(self.conf)}, 1.0)
         if isinstance(self.conf, str):
             # the verdict arrives with a confidence that is not a number: a failed ballot
             self.cast = "failed"
@@ -441,22 +482,35 @@ class RealVoter:
         return p
 
 
+NONFINITE = ("nan", "inf")
+
+
+def _num(x):
+    """Plans stay plain JSON: non-finite numbers are written as the tokens "nan" / "inf"."""
+    return float(x) if isinstance(x, str) and x in NONFINITE else x
+
+
 def build(cfg, weights, budget, rel=None):
     n = cfg["n"]
     store = ATP_Store(budget=budget, silent=quiet())
     t = cfg["threshold"]
+    extra = {"enable_reliability_tracking": bool(cfg.get("tracking", True))}
+    if cfg.get("callbacks"):
+        seen = []          # plain observers: part of the input space, not judged
+        extra["on_quorum_reached"] = lambda r: seen.append(("reached", bool(r.reached)))
+        extra["on_quorum_failed"] = lambda r: seen.append(("failed", bool(r.reached)))
     if cfg["emergency"]:
-        q = EmergencyQuorum(n_agents=n, budget=store, emergency_threshold=t, silent=quiet())
+        q = EmergencyQuorum(n_agents=n, budget=store, emergency_threshold=t, silent=quiet(), **extra)
     elif cfg.get("via_set"):
-        q = QuorumSensing(n_agents=n, budget=store, min_voters=cfg["min_voters"], silent=quiet())
+        q = QuorumSensing(n_agents=n, budget=store, min_voters=cfg["min_voters"], silent=quiet(), **extra)
         q.set_strategy(VotingStrategy(cfg["strategy"]), t)
     else:
         q = QuorumSensing(n_agents=n, budget=store, strategy=VotingStrategy(cfg["strategy"]), threshold=t,
-                          min_voters=cfg["min_voters"], silent=quiet())
+                          min_voters=cfg["min_voters"], silent=quiet(), **extra)
     if len(q.colony) != n:
         raise HarnessError("colony size differs from n_agents")
     for i, p in enumerate(q.colony):
-        w = weights[i] if i < len(weights) else 1
+        w = _num(weights[i]) if i < len(weights) else 1
         if w != 1:
             if not q.set_agent_weight(p.agent.name, w):
                 raise HarnessError("set_agent_weight refused")
@@ -497,7 +551,7 @@ class _V:
         self.weight, self.confidence = weight, confidence
 
 
-def judge(k, cfg, cast, res, site, min_voters):
+def judge(k, cfg, cast, res, site, min_voters, unqualified_only=False):
     """cast: list of dicts {cls, w, r, c} (what the voters did); res: QuorumResult."""
     n = len(cast)
     strategy = cfg["strategy"]
@@ -533,6 +587,11 @@ def judge(k, cfg, cast, res, site, min_voters):
     # ---- S3
     if strategy == "unanimous" and blocks and any_permit(res):
         k.violation("S3", "permit_despite_block", site, f"ballot={[v['cls'] for v in cast]}")
+
+    if unqualified_only:
+        # non-finite weights / confidences are outside the statement's grid: only S1, S3 and S5 (which carry no
+        # weight or confidence qualifier) are judged
+        return
 
     # ---- S2
     if len(permits) == n and n >= min_voters:
@@ -663,9 +722,10 @@ def _cast_of(voters, obs):
     cast = []
     for v, (w, r) in zip(voters, obs):
         c = getattr(v, "conf", None)
-        cast.append({"cls": v.cast, "w": w, "r": r, "c": None if isinstance(c, str) else c,
+        garbled = isinstance(c, str) and c not in NONFINITE
+        cast.append({"cls": v.cast, "w": w, "r": r, "c": None if garbled else _num(c),
                      "fault": v.cast == "failed" and getattr(v, "beh", "real") in ("raise", "starved", "real")
-                     or isinstance(c, str)})
+                     or garbled})
     return cast
 
 
@@ -699,7 +759,12 @@ def run(plan, k):
         return _run_threads(plan, k)
     cfg = plan["config"]
     n0 = cfg["n"]
-    weights = list(cfg["weights"])
+    weights = [_num(w) for w in cfg["weights"]]
+    nonfinite = cfg.get("family") == "nonfinite"
+    if nonfinite:
+        k.probe("nonfinite_run")
+    if not cfg.get("tracking", True):
+        k.probe("reliability_tracking_off")
     # the criterion in force; re-derived whenever set_strategy is applied, n is re-read from the colony at vote time
     cur = {"strategy": cfg["strategy"], "threshold": cfg["threshold"], "emergency": cfg["emergency"],
            "min_voters": 1 if cfg["emergency"] else cfg["min_voters"]}
@@ -755,13 +820,13 @@ def run(plan, k):
             if op[1] == 0:
                 k.probe("enrolled_with_zero_weight")
             before = list(q.colony)
-            out = call(q.add_agent, name, op[1])
+            out = call(q.add_agent, name, _num(op[1]))
             if out.kind != "ok":
                 raise HarnessError(f"add_agent failed: {out.exc!r}")
             new = [p for p in q.colony if not any(p is b for b in before)]
             if len(new) != 1:
                 raise HarnessError("add_agent did not enrol exactly one member")
-            given.put(new[0], float(op[1]))
+            given.put(new[0], float(_num(op[1])))
             k.ev("add_agent", [op[1], name, len(q.colony)])
             k.probe("colony_grew")
             changed = True
@@ -780,14 +845,21 @@ def run(plan, k):
         if op[0] == "set_weight":
             name = q.colony[op[1] % len(q.colony)].agent.name
             same = given.names(q, name)
-            out = call(q.set_agent_weight, name, op[2])
+            out = call(q.set_agent_weight, name, _num(op[2]))
             if out.kind != "ok" or out.value is not True:
                 raise HarnessError(f"set_agent_weight failed: {out.brief()}")
             for pr in same:
-                given.by[id(pr)] = float(op[2]) if len(same) == 1 else None
+                given.by[id(pr)] = float(_num(op[2])) if len(same) == 1 else None
             k.ev("set_weight", [op[1] % len(q.colony), op[2]])
             k.probe("weight_changed_before_vote")
             changed = True
+            continue
+        if op[0] == "set_tracking":
+            q.enable_reliability_tracking = bool(op[1])       # public attribute, like the constructor flag
+            k.ev("set_tracking", [op[1]])
+            k.probe("reliability_tracking_toggled")
+            if not op[1]:
+                k.probe("reliability_tracking_off")
             continue
         if op[0] == "set_strategy":
             out = call(q.set_strategy, VotingStrategy(op[1]), op[2])
@@ -811,7 +883,7 @@ def run(plan, k):
             k.probe("bayesian_run")
         if tclass(cur) == "one":
             k.probe("threshold_one")
-        if all(w == 0 for w, _ in obs):
+        if all(w == 0 for w, _ in obs) and obs:
             k.probe("zero_weight_electorate")
         if changed:
             k.probe("vote_after_electorate_change")
@@ -826,7 +898,7 @@ def run(plan, k):
             ballot = [_beh(op[1], j) for j in range(n)]
             voters = [FakeVoter(k, q.colony[j].agent.name, ballot[j][0], ballot[j][1], store, big) for j in range(n)]
             prompt = "Should we proceed?"
-            if all(c in (0, 0.2) for _, c in ballot):
+            if all(c in (0, 0.2) for _, c in ballot if not isinstance(c, str)) and not any(isinstance(c, str) for _, c in ballot):
                 k.probe("low_confidence_electorate")
         out = _poll(k, q, voters, prompt)
         voted += 1
@@ -843,6 +915,8 @@ def run(plan, k):
                 k.violation("S5", "voter_not_polled", site, f"voter {j}")
                 v.cast = "failed"
         gw = given.weights(q, obs)
+        if not q.enable_reliability_tracking and len(set(gw)) > 1:
+            k.probe("tracking_off_with_uneven_weights")
         cast = _cast_of(voters, [(w, r) for w, (_, r) in zip(gw, obs)])
         names = [p.agent.name for p in q.colony]
         for a in range(n):
@@ -857,10 +931,10 @@ def run(plan, k):
             nontrivial = True
         if not any(v["cls"] in ("permit", "block") for v in cast):
             k.probe("empty_active_ballot")
-        judge(k, cur, cast, res, site, cur["min_voters"])
+        judge(k, cur, cast, res, site, cur["min_voters"], unqualified_only=nonfinite)
 
         # ---- S4: metamorphic re-runs on fresh instances built directly for the colony as it is now
-        if ballot is not None and is_permit(res):
+        if ballot is not None and is_permit(res) and not nonfinite:
             rel = [r for _, r in obs]
             base_w = list(gw)
             variants = []
